@@ -15,31 +15,42 @@ Proof. exact long_codec. Qed.
    text that is valid UTF-8 (surrogatepass), and tuples, lists, sets, frozensets and dicts of such values to any depth, any
    container below 2^31 items - whatever `repr_float` is.  `load` is the shared reader model under xdis.marsh's
    configuration with the fuel it always gets; nothing is left unread and no reference table is touched. *)
-Theorem C14_xdis_loads_dumps : forall (repr_float : Z -> list Z) v, wfv v ->
-  load marsh_cfg (dumps repr_float v) = Ok (textify repr_float v, {| inp := []; refs := []; strs := [] |}).
-Proof. intros repr_float v Hw. exact (loads_dumps repr_float marsh_cfg marsh_cfg_ok v Hw). Qed.
+Definition plain_wfv (c : cfg) : pv -> Prop := wfv false c false.      (* no code objects: those are C13's *)
+
+Theorem C14_xdis_loads_dumps : forall (repr_float : Z -> list Z) v, plain_wfv marsh_cfg v ->
+  load marsh_cfg (dumps repr_float false v) = Ok (textify repr_float v, {| inp := []; refs := []; strs := [] |}).
+Proof.
+  intros repr_float v Hw.
+  exact (loads_dumps repr_float false marsh_cfg marsh_cfg_ok false (fun H => False_ind _ (Bool.diff_false_true H)) v Hw).
+Qed.
 
 (* marshal.loads(xdis.marsh.dumps(v)) = v: the same for CPython's own reader (the strict configuration validated against
    marshal.loads of the installed interpreters in C10), for the magic of every Python 3 version in xdis's table - its range
    checks on counts, digits and references, its NULL checks and its UTF-8 decoding all pass on what dumps writes. *)
-Theorem C14_cpython_loads_dumps : forall m (repr_float : Z -> list Z) v, In m all_magics -> py3_magic m = true -> wfv v ->
-  load (cpy_cfg m) (dumps repr_float v) = Ok (textify repr_float v, {| inp := []; refs := []; strs := [] |}).
-Proof. intros m repr_float v Hin H3 Hw. exact (loads_dumps repr_float (cpy_cfg m) (cpy_cfg_ok m Hin H3) v Hw). Qed.
+Theorem C14_cpython_loads_dumps : forall m (repr_float : Z -> list Z) v, In m all_magics -> py3_magic m = true -> plain_wfv (cpy_cfg m) v ->
+  load (cpy_cfg m) (dumps repr_float false v) = Ok (textify repr_float v, {| inp := []; refs := []; strs := [] |}).
+Proof.
+  intros m repr_float v Hin H3 Hw.
+  exact (loads_dumps repr_float false (cpy_cfg m) (cpy_cfg_ok m Hin H3) false (fun H => False_ind _ (Bool.diff_false_true H)) v Hw).
+Qed.
 
 (* ... and inside any context: either reader stops exactly where dumps stopped *)
-Theorem C14_loads_dumps_prefix : forall c (repr_float : Z -> list Z) f v st rest, cfg_ok c -> wfv v -> (depth v <= f)%nat ->
-  r_object f c (with_inp st (dumps repr_float v ++ rest)) = Ok (textify repr_float v, with_inp st rest).
-Proof. intros c repr_float f v st rest Hc Hw Hd. exact (marsh_roundtrip repr_float c Hc f v Hw Hd st rest). Qed.
+Theorem C14_loads_dumps_prefix : forall c (repr_float : Z -> list Z) f v st rest, cfg_ok c -> plain_wfv c v -> (depth v <= f)%nat ->
+  r_object f c (with_inp st (dumps repr_float false v ++ rest)) = Ok (textify repr_float v, with_inp st rest).
+Proof.
+  intros c repr_float f v st rest Hc Hw Hd.
+  exact (marsh_roundtrip repr_float false c Hc false (fun H => False_ind _ (Bool.diff_false_true H)) f v Hw Hd st rest).
+Qed.
 
 Definition ex_value : pv :=
   PTuple [PInt (-(2 ^ 70)); PList [PNone; PText [104; 195; 169]]; PDict [(PBin [1; 2], PFrozenSet [PInt 3]); (PNone, PFloat 4609434218613702656)]; PSet []].
 
 Example C14_nonvacuous :
   to_digits (digits_fuel (2 ^ 200 + 12345)) (2 ^ 200 + 12345) <> [] /\ dump_long (-32768) = [108; 254; 255; 255; 255; 0; 0; 1; 0]
-  /\ wfv ex_value
-  /\ List.length (dumps (fun _ => [49; 46; 53]) ex_value) = 66%nat
+  /\ plain_wfv marsh_cfg ex_value
+  /\ List.length (dumps (fun _ => [49; 46; 53]) false ex_value) = 66%nat
   /\ existsb (fun m => py3_magic m && (m =? 3531)) all_magics = true.
 Proof.
   split; [vm_compute; discriminate|]. split; [vm_compute; reflexivity|]. split; [|split; vm_compute; reflexivity].
-  unfold ex_value. repeat (first [constructor | split]); try (vm_compute; reflexivity); unfold small_len; try (vm_compute; reflexivity).
+  unfold plain_wfv, ex_value. repeat (first [constructor | split]); try (vm_compute; reflexivity); unfold small_len; try (vm_compute; reflexivity).
 Qed.
